@@ -240,8 +240,10 @@ type Case struct {
 	stepViols    []violation
 	sentProps    map[propKey]bool
 	refused      []refusedProp
-	nf           string // network fault ("a" | "b") to inject into the next op's broadcast
-	role         int    // 2 = controller of the second duty role of a multi-node schedule (crossrole.go)
+	sentAll      map[msgKey]bool // single-signer messages this operator broadcast
+	gotSigned    []msgKey        // validly signed single-signer messages of OTHER operators it was fed (replay consistency)
+	nf           string          // network fault ("a" | "b") to inject into the next op's broadcast
+	role         int             // 2 = controller of the second duty role of a multi-node schedule (crossrole.go)
 	roundBefore  specqbft.Round
 	lastRet      *specqbft.SignedMessage
 	tags         []string // distribution tags collected while the case ran
